@@ -716,3 +716,14 @@ Section Chain.
     eapply union_step_yields; eauto. lia.
   Qed.
 End Chain.
+
+(* the fingerprint premise in "iff" form *)
+Lemma distinct_by_exact_iff (K : Type) (fp : value -> K) (keq : K -> K -> bool)
+      (eqv : value -> value -> bool) :
+  equivalence_b eqv ->
+  (forall a b, keq (fp a) (fp b) = true <-> eqv a b = true) ->
+  forall rows, distinct_by K fp keq [] rows = nodup_first eqv rows.
+Proof.
+  intros EQ FP. apply distinct_by_exact; auto.
+  intros a b. specialize (FP a b). destruct (keq (fp a) (fp b)), (eqv a b); intuition congruence.
+Qed.
